@@ -281,6 +281,29 @@ func (v *nmView) active() int {
 	return n
 }
 
+// blackRecordsOf: the BLACK_LIST record keys (hex of the stored key bytes) that denote the given public key.
+func (v *nmView) blackRecordsOf(canon string) []string {
+	var out []string
+	for kb, c := range v.Black {
+		if c == canon {
+			out = append(out, kb)
+		}
+	}
+	sort.Strings(out)
+	return out
+}
+
+// entriesOf: the PeerPubkey strings of the pool entries that denote the given public key.
+func (v *nmView) entriesOf(canon string) []string {
+	var out []string
+	for _, e := range v.Pool {
+		if e.Canon == canon {
+			out = append(out, e.Key)
+		}
+	}
+	return out
+}
+
 func (v *nmView) blackCanon() map[string]bool {
 	m := map[string]bool{}
 	for _, c := range v.Black {
